@@ -199,6 +199,14 @@ static RunPlan gen_sched_family(uint64_t seed, int tier)
 		p.ops.push_back(op_cmd(::gen_sched(rng, again)));
 		s.cmd = "scrub";
 		s.opts = { "-p", "full" };
+	} else if (kind == 8 && have_base) {
+		// scrub of an array with files changed since the sync AND silent errors: which stripe is an "expected difference" and
+		// which a silent error must not depend on the ring size or the schedule
+		int n = (int)rng.range(1, 4);
+		for (int i = 0; i < n; ++i) p.ops.push_back(Json::obj().set("k", "silent").set("d", (int64_t)rng.below(p.cfg.disks.size())).set("f", (int64_t)rng.below(16)).set("at", rng.next() >> 8));
+		if (rng.chance(1, 2)) p.ops.push_back(Json::obj().set("k", "touch").set("d", (int64_t)rng.below(p.cfg.disks.size())).set("f", 0));
+		s.cmd = "scrub";
+		s.opts = { "-p", "full" };
 	} else {
 		s.cmd = "sync";
 		s.opts = { "-E", "-Z" };
